@@ -17,6 +17,7 @@ class SdkDriver:
         self.created_in_segment: Dict[str, int] = {}
         self.segment = 0
         self.on_top = None
+        self.on_nested = None
         self.seg_regs = {}           # segment -> registers that were handed to a host handle in it
         self.tmpl_mode = "concrete"
         self.tmpl_values = {}
@@ -74,7 +75,10 @@ class SdkDriver:
     # ---- statements ----------------------------------------------------------------------------
     def block(self, stmts):
         for st in stmts:
-            self.stmt(st)
+            if self.on_nested is not None:
+                self.on_nested(self, st)      # a completed operation inside the body of an enclosing one
+            else:
+                self.stmt(st)
 
     def top_block(self, stmts):
         """Top-level statements of a flush segment: each is one completed SDK operation."""
